@@ -377,6 +377,66 @@ func c01(x *mon.Ctx) {
 		}
 	}
 	x.Require("message-numeric-bitflip", 0, 4*9*32, 4*9*32)
+	// ---- (a'') message-level length mutants: every byte-string field of the signed regions one byte longer (0x00 / 0xff
+	//      appended) or, when it ends in a zero byte, one byte shorter — a serialiser that copies into fixed-size windows
+	//      would produce exactly the signed bytes from such a message.
+	for _, s := range srcs {
+		base := mon.MessageFor("built", s.c.Quote)
+		if base == nil {
+			continue
+		}
+		type bf struct {
+			name string
+			get  func(m *pb.QuoteV4) *[]byte
+		}
+		qr := func(m *pb.QuoteV4) *pb.EnclaveReport {
+			return m.SignedData.CertificationData.QeReportCertificationData.QeReport
+		}
+		fields := []bf{
+			{"header.pce_svn", func(m *pb.QuoteV4) *[]byte { return &m.Header.PceSvn }}, {"header.qe_svn", func(m *pb.QuoteV4) *[]byte { return &m.Header.QeSvn }},
+			{"header.qe_vendor_id", func(m *pb.QuoteV4) *[]byte { return &m.Header.QeVendorId }}, {"header.user_data", func(m *pb.QuoteV4) *[]byte { return &m.Header.UserData }},
+			{"body.tee_tcb_svn", func(m *pb.QuoteV4) *[]byte { return &m.TdQuoteBody.TeeTcbSvn }}, {"body.mr_seam", func(m *pb.QuoteV4) *[]byte { return &m.TdQuoteBody.MrSeam }},
+			{"body.mr_signer_seam", func(m *pb.QuoteV4) *[]byte { return &m.TdQuoteBody.MrSignerSeam }}, {"body.seam_attributes", func(m *pb.QuoteV4) *[]byte { return &m.TdQuoteBody.SeamAttributes }},
+			{"body.td_attributes", func(m *pb.QuoteV4) *[]byte { return &m.TdQuoteBody.TdAttributes }}, {"body.xfam", func(m *pb.QuoteV4) *[]byte { return &m.TdQuoteBody.Xfam }},
+			{"body.mr_td", func(m *pb.QuoteV4) *[]byte { return &m.TdQuoteBody.MrTd }}, {"body.mr_config_id", func(m *pb.QuoteV4) *[]byte { return &m.TdQuoteBody.MrConfigId }},
+			{"body.mr_owner", func(m *pb.QuoteV4) *[]byte { return &m.TdQuoteBody.MrOwner }}, {"body.mr_owner_config", func(m *pb.QuoteV4) *[]byte { return &m.TdQuoteBody.MrOwnerConfig }},
+			{"body.rtmr0", func(m *pb.QuoteV4) *[]byte { return &m.TdQuoteBody.Rtmrs[0] }}, {"body.rtmr3", func(m *pb.QuoteV4) *[]byte { return &m.TdQuoteBody.Rtmrs[3] }},
+			{"body.report_data", func(m *pb.QuoteV4) *[]byte { return &m.TdQuoteBody.ReportData }},
+			{"attestation_key", func(m *pb.QuoteV4) *[]byte { return &m.SignedData.EcdsaAttestationKey }},
+			{"qe_report.cpu_svn", func(m *pb.QuoteV4) *[]byte { return &qr(m).CpuSvn }}, {"qe_report.reserved1", func(m *pb.QuoteV4) *[]byte { return &qr(m).Reserved1 }},
+			{"qe_report.attributes", func(m *pb.QuoteV4) *[]byte { return &qr(m).Attributes }}, {"qe_report.mr_enclave", func(m *pb.QuoteV4) *[]byte { return &qr(m).MrEnclave }},
+			{"qe_report.reserved2", func(m *pb.QuoteV4) *[]byte { return &qr(m).Reserved2 }}, {"qe_report.mr_signer", func(m *pb.QuoteV4) *[]byte { return &qr(m).MrSigner }},
+			{"qe_report.reserved3", func(m *pb.QuoteV4) *[]byte { return &qr(m).Reserved3 }}, {"qe_report.reserved4", func(m *pb.QuoteV4) *[]byte { return &qr(m).Reserved4 }},
+			{"qe_report.report_data", func(m *pb.QuoteV4) *[]byte { return &qr(m).ReportData }},
+		}
+		for fi, f := range fields {
+			for _, how := range []string{"append-00", "append-ff", "drop-last", "double", "empty"} {
+				m := proto.Clone(base).(*pb.QuoteV4)
+				p := f.get(m)
+				switch how {
+				case "append-00":
+					*p = append(*p, 0)
+				case "append-ff":
+					*p = append(*p, 0xff)
+				case "drop-last":
+					*p = (*p)[:len(*p)-1]
+				case "double":
+					*p = append(*p, *p...)
+				case "empty":
+					*p = []byte{}
+				}
+				wire, err := proto.Marshal(m)
+				if err != nil {
+					continue
+				}
+				c := *s.c
+				c.Msg = wire
+				c.Class, c.Param, c.Expect, c.Twin = "message-field-length", fmt.Sprintf("%s/%s/%s", s.name, f.name, how), "reject", "bitflip-source"
+				check(x, fi, &c)
+			}
+		}
+	}
+	x.Require("message-field-length", 0, 4*27*5, 4*27*5)
 
 	// ---- (c) random multi-byte mutants, reference decides
 	nm := x.Pick(3000, 200000)
